@@ -263,6 +263,11 @@ func c09Oracle(v *Verdict, d *DeclSpec, r *OpResult, target string, label string
 				if len(execs) > 1 || len(handlers) > 1 {
 					v.fail("c09:executed-more-than-once", "more than one invocation: "+desc)
 				}
+				// ... and it saw precisely the remaining arguments the parser also returns
+				if !sameArgs(failing.Args, r.Rest) && !(r.ErrType == "help" && len(r.Rest) == 0) {
+					v.failAttr("C09", "c09:execute-args-differ-from-returned", fmt.Sprintf("the command (which then failed) received %s but ParseArgs returned %s: %s", mustJSON(failing.Args), mustJSON(r.Rest), desc),
+						map[string]string{"path": "command-error"})
+				}
 				return
 			}
 		}
@@ -444,6 +449,11 @@ func (propC09) Judge(sc *Scenario) *Verdict {
 		}
 	} else {
 		c09Oracle(v, d, fr, target, "faulted line", argv, p.Completion != "")
+	}
+	for i := range o.Ops {
+		if o.Ops[i].Aliased != "" {
+			v.fail("c09:arguments-changed-after-the-fact", o.Ops[i].Aliased)
+		}
 	}
 	changed := fr.Err != tr.Err || mustJSON(fr.Calls) != mustJSON(tr.Calls)
 	out := "accepted"
